@@ -18,6 +18,19 @@ type fallthroughSSA struct{}
 func init() {
 	externals["fmt.Sprintf"] = extSprintf
 	externals["fmt.Errorf"] = extErrorf
+	externals["fmt.Fprintf"] = func(fr *frame, args []value) value {
+		out, ok, _ := fr.sprintf(args[1], args[2].([]value))
+		if !ok {
+			return fallthroughSSA{}
+		}
+		w := args[0].(iface)
+		if w.t == nil {
+			return fallthroughSSA{}
+		}
+		m := fr.i.findMethod(w.t, "Write")
+		res := call(fr.i, fr, 0, m, []value{w.v, append([]value(nil), out...)}).(tuple)
+		return res
+	}
 }
 
 // fmtArg renders one argument for verb; ok=false means "not simple".
